@@ -31,7 +31,7 @@ _CACHE = {}
 
 
 def band(fs):
-    return (6, 14) if fs == 64 else (9.375, 21.875)
+    return {64: (6, 14), 100: (9.375, 21.875), 1000: (13, 30)}[fs]
 
 
 def table(word, centre, method, fs):
@@ -283,4 +283,10 @@ def spaces(tier, seed):
                                 describe='plot_burst_detect_summary x plot_only_result x interp', bounds={'windows': len(w_mid)}))
         out.append(ProductSpace('object-plot-fs%d' % fs, [words[:2], cfg, w_coarse, [['summary', True, True, 'object'], ['summary', False, True, 'object']]],
                                 evaluate, describe='Bycycle.plot (after load)', bounds={'windows': len(w_coarse)}))
+    # a 140 s recording at fs = 1000: windows beyond t * fs = 1e5 and a full view of 140000 samples
+    lw = [None, [10000, 13000], [110000, 113000], [119000, 121500], [100000, 100064]]
+    lcfg = [('peak', 'cycles', 1000), ('trough', 'amp', 1000)]
+    out.append(ProductSpace('long-recording', [['@F'], lcfg, lw, [['cp_df', True, True, True], ['summary', True, True, 'function'],
+                                                                  ['summary', False, True, 'function'], ['summary', True, True, 'object']]], evaluate,
+                            describe='140000-sample recording at fs = 1000: full view and windows at 10 s / 110 s / 119 s x cyclepoint plot, summary, Bycycle.plot'))
     return out
